@@ -1,0 +1,81 @@
+//go:build verif
+
+// Contracts for gocv (see /verif/DESIGN.md). Comment-only file: takes no part in any build.
+
+package skiplist
+
+// ---- C24: the score-ordered queue (membership, capacity, eviction rule, byte counter) ------------------
+// Membership is the key set of txMap; Size() is its cardinality. The skip list and the per-score FIFO
+// lists (container/list) are abstract here: the helpers that touch them are trusted not to touch the
+// queue's own fields.
+//@ pure func (Scorer).Hash
+//@ smt (declare-fun scoreOf (Iface) Int)
+//@ trusted func (Scorer).GetScore
+//@   frame nothing
+//@   ensures result == scoreOf(recv)
+//@ pure func (Scorer).Compare
+//@ pure func (Scorer).ByteSize
+//@ trusted func (*Queue).insertSkipValue
+//@   frame ~Queue.txMap, ~Queue.maxsize, ~Queue.cacheBytes, ~Queue.txList, ~map:string|*container/list.Element, ~mem:uint8
+//@   ensures result != nil
+//@ trusted func (*Queue).deleteSkipValue
+//@   frame ~Queue.txMap, ~Queue.maxsize, ~Queue.cacheBytes, ~Queue.txList, ~map:string|*container/list.Element, ~mem:uint8, ~container/list.Element.Value
+//@ trusted func (*Queue).Last
+//@   frame nothing
+//@   ensures len(cache.txMap) > 0 ==> result != nil
+
+//@ func (*SkipValue).Compare [C24]
+//@   requires v != nil && value != nil
+//@   frame nothing
+//@   ensures result == (v.Score > value.Score ? -1 : (v.Score == value.Score ? 0 : 1))
+
+//@ func (*Queue).CreateSkipValue [C24]
+//@   opt safety=assumed
+//@   frame allocates
+//@   ensures result != nil && fresh(result) && result.Score == scoreOf(item)
+//@   assert@call GetScore: arg0 == item
+
+//@ func (*Queue).Exist [C24]
+//@   frame nothing
+//@   ensures result == has(cache.txMap, hash)
+//@ func (*Queue).Size [C24]
+//@   frame nothing
+//@   ensures result == len(cache.txMap)
+
+//@ func (*Queue).Insert [C24]
+//@   opt safety=assumed overflow=assumed
+//@   frame ~mem:uint8, ~Queue.maxsize, ~Queue.txMap, ~Queue.txList
+//@   requires cache.txMap != nil
+//@   ensures cache.cacheBytes == old(cache.cacheBytes) + ret(ByteSize)
+//@   ensures has(cache.txMap, hash) && forall k Bytes :: k != hash ==> has(cache.txMap, k) == old(has(cache.txMap, k))
+//@   ensures len(cache.txMap) == (old(has(cache.txMap, hash)) ? old(len(cache.txMap)) : old(len(cache.txMap)) + 1)
+//@   ensures cache.maxsize == old(cache.maxsize) && cache.txMap == old(cache.txMap)
+//@   assert@call ByteSize: arg0 == item
+//@   assert@call insertSkipValue: arg1 == item
+
+//@ func (*Queue).Remove [C24]
+//@   opt safety=assumed overflow=assumed
+//@   frame ~mem:uint8, ~Queue.maxsize, ~Queue.txMap, ~Queue.txList
+//@   ensures !old(has(cache.txMap, hash)) ==> result == types.ErrNotFound && cache.cacheBytes == old(cache.cacheBytes) && len(cache.txMap) == old(len(cache.txMap))
+//@   ensures old(has(cache.txMap, hash)) ==> !has(cache.txMap, hash) && len(cache.txMap) == old(len(cache.txMap)) - 1
+//@   ensures forall k Bytes :: k != hash ==> has(cache.txMap, k) == old(has(cache.txMap, k))
+//@   ensures result == nil ==> old(has(cache.txMap, hash)) && cache.cacheBytes == old(cache.cacheBytes) - ret(ByteSize)
+//@   ensures cache.maxsize == old(cache.maxsize) && cache.txMap == old(cache.txMap)
+//@   assert@call deleteSkipValue: arg1 == old(cache.txMap[hash])
+
+// Push: refuses a known hash; below capacity it inserts; at capacity it evicts the last (lowest-ranked)
+// item - and only that one - and only for a strictly higher-ranked newcomer; never above capacity
+//@ func (*Queue).Push [C24]
+//@   opt safety=assumed overflow=assumed
+//@   requires cache.txMap != nil && cache.maxsize >= 1 && len(cache.txMap) <= cache.maxsize
+//@   ensures old(has(cache.txMap, bytes(ret(Hash, 0)))) ==> result == types.ErrTxExist && len(cache.txMap) == old(len(cache.txMap)) && cache.cacheBytes == old(cache.cacheBytes)
+//@   ensures result == nil ==> has(cache.txMap, bytes(ret(Hash, 0))) && !old(has(cache.txMap, bytes(ret(Hash, 0))))
+//@   ensures len(cache.txMap) <= cache.maxsize && cache.maxsize == old(cache.maxsize)
+//@   ensures result == nil && old(len(cache.txMap)) < cache.maxsize ==> !called(Remove) && len(cache.txMap) == old(len(cache.txMap)) + 1
+//@   ensures result == types.ErrMemFull && !called(Remove) ==> len(cache.txMap) == old(len(cache.txMap)) && cache.cacheBytes == old(cache.cacheBytes) && !called(Insert)
+//@   ensures !called(Remove) && !called(Insert) && !old(has(cache.txMap, bytes(ret(Hash, 0)))) ==> result == types.ErrMemFull && old(len(cache.txMap)) >= cache.maxsize
+//@   assert@call Remove: old(len(cache.txMap)) >= cache.maxsize && arg1 == bytes(ret(Hash, 1))
+//@   assert@call Remove: scoreOf(item) > scoreOf(ret(Last)) || (scoreOf(item) == scoreOf(ret(Last)) && ret(Compare, 1) == -1)
+//@   assert@call Hash#1: arg0 == ret(Last)
+//@   assert@call Scorer).Compare: arg0 == item && arg1 == ret(Last)
+//@   assert@call Insert: arg1 == bytes(ret(Hash, 0)) && arg2 == item
